@@ -117,6 +117,7 @@ CONSTANTS
  SplitHandlers = TRUE
  BlockingErrors = FALSE
  TraceFile = "trace.json"
+ SilentCancel = %s
  StopAt = 0
 CONSTRAINT Mark
 POSTCONDITION Accepted
@@ -176,7 +177,7 @@ def strict_scenarios(rng, n, gates, points):
     return out
 
 
-def validate_events(evs, family, work, name, keep=False, custom=None):
+def validate_events(evs, family, work, name, keep=False, custom=None, silent_cancel=False):
     """one TLC run of EngineStrict.tla over one projected trace; returns (accepted, index of the first event that could
     not be consumed or None, tail of TLC output)"""
     d = os.path.join(work, name)
@@ -185,7 +186,7 @@ def validate_events(evs, family, work, name, keep=False, custom=None):
     shutil.copy(os.path.join(vlib.SPEC, 'trace', 'EngineStrict.tla'), d)
     json.dump(evs, open(os.path.join(d, 'trace.json'), 'w'))
     json.dump(custom or {}, open(os.path.join(d, 'custom.json'), 'w'))
-    open(os.path.join(d, 'EngineStrict.cfg'), 'w').write(STRICT_CFG % (family, 'CustomDef' if custom else 'NoCustom'))
+    open(os.path.join(d, 'EngineStrict.cfg'), 'w').write(STRICT_CFG % (family, 'CustomDef' if custom else 'NoCustom', B(silent_cancel)))
     env = dict(os.environ, JAVA_TOOL_OPTIONS='-Dtlc2.tool.queue.IStateQueue=StateDeque -Xss64m')
     p = subprocess.run(['timeout', '300', 'tlc', '-workers', '1', '-metadir', os.path.join(d, 'md'), 'EngineStrict.tla'], cwd=d, capture_output=True, text=True, env=env)
     out = p.stdout + p.stderr
@@ -226,10 +227,30 @@ def strict_part(ctx, n_quick=24, n_thorough=600, gates=(), points=(), gen_quick=
     rng = random.Random(ctx.seed * 31337 + 9)
     scs = [x + (None,) for x in strict_scenarios(rng, n_quick if ctx.quick else n_thorough, list(gates), list(points))]
     scs += generated_scenarios(rng, gen_quick if ctx.quick else gen_thorough)
+    # loop steps: the runs a loop starts for its items are engine runs of their own - validated like any other run of
+    # the sub-workflow (the parent run contains the loop step, which Engine.tla does not model)
+    import check_c13
+    sub_cu = strict.custom_of(gen.LOOP_SUB, {})
+    nloop = 4 if ctx.quick else 60
+    for k in range(nloop):
+        n = rng.choice([2, 3, 4])
+        outs = [rng.choice(['success', 'success', 'error', 'crash']) for _ in range(n)]
+        it = check_c13.loop_item(rng, n, rng.choice([1, 2]), outs)
+        sc = gen.make_scenario(it['wf'], it['script'], it['input'], it['schedule'], subwfs=it['subwfs'], timeout_ms=30000)
+        cancel = rng.choice([None, None, 10, 30])
+        if cancel is not None:
+            sc['runs'] = [{'input': it['input'], 'cancel_after_ms': cancel}]
+        scs.append(('custom', 'item runs of a loop (%d items %s, cancel=%s)' % (n, outs, cancel), sc, 'SUB'))
     binary = ctx.binary()
     results = vlib.run_scenarios(binary, [x[2] for x in scs], ctx.work, prefix='x')
     jobs = []
     for (fam, desc, sc, cu), r in zip(scs, results):
+        if cu == 'SUB':
+            if r['result'] is None or not os.path.exists(r['trace']):
+                continue
+            for k, evs in enumerate(strict.one_run_events(r['trace'], wfout={}, sub_runs=True)):
+                jobs.append((fam, desc + ' item run %d' % k, evs, os.path.basename(r['dir']) + '-%d' % k, sub_cu, sc, True))
+            continue
         if r['result'] is None or r['code'] not in (0, 3) or not os.path.exists(r['trace']):
             ctx.inconclusive('strict mode: harness died for %s: %s' % (desc, (r['stderr'] or '')[-200:]))
             continue
@@ -237,19 +258,20 @@ def strict_part(ctx, n_quick=24, n_thorough=600, gates=(), points=(), gen_quick=
             continue
         runs = strict.one_run_events(r['trace'], wfout={} if cu else None)
         if runs:
-            jobs.append((fam, desc, runs[0], os.path.basename(r['dir']), cu, sc))
+            jobs.append((fam, desc, runs[0], os.path.basename(r['dir']), cu, sc, False))
     with cf.ThreadPoolExecutor(max_workers=max(2, vlib.NCPU // 2)) as ex:
-        outs = list(ex.map(lambda j: validate_events(j[2], j[0], ctx.work, 'strict-' + j[3], custom=j[4]), jobs))
+        outs = list(ex.map(lambda j: validate_events(j[2], j[0], ctx.work, 'strict-' + j[3], custom=j[4], silent_cancel=j[6]), jobs))
     accepted, events, states = 0, 0, 0
     good = []
-    for (fam, desc, evs, name, cu, sc), (ok, stuck, ran, st, tail) in zip(jobs, outs):
+    for (fam, desc, evs, name, cu, sc, silent), (ok, stuck, ran, st, tail) in zip(jobs, outs):
         states += st.get('distinct', 0)
         if not ran:
             ctx.inconclusive('EngineStrict.tla did not run for %s: %s' % (desc, tail))
         elif ok:
             accepted += 1
             events += len(evs)
-            good.append((fam, evs, cu))
+            if not silent:
+                good.append((fam, evs, cu))
         else:
             e = evs[stuck - 1] if stuck and stuck <= len(evs) else {}
             # keep what is needed to look at it: the projected events, the workflow record, the scenario
